@@ -283,9 +283,9 @@ class Ctx:
             "wall_s": round(time.time() - self.t0, 2),
             "violations": len(self.violations),
         }
-        # evidence describes runs against /repo itself; a run against another tree (VERIF_REPO: seeded changes, mutants) leaves
-        # its record in its work directory only
-        evdir = os.path.join(VERIF, "evidence") if REPO == "/repo" else self.work
+        # evidence describes quick / thorough runs against /repo itself; a run against another tree (VERIF_REPO: seeded changes,
+        # mutants) and a --replay run leave their record in their work directory only
+        evdir = os.path.join(VERIF, "evidence") if REPO == "/repo" and not getattr(self, "replaying", False) else self.work
         os.makedirs(evdir, exist_ok=True)
         with open(os.path.join(evdir, self.prop + ".json"), "w") as f:
             json.dump(ev, f, indent=1, default=str)
